@@ -1,4 +1,6 @@
 """Kani route: run in-crate contract harnesses (mounted by the cfg hook) on the real package."""
+import contextlib
+import fcntl
 import os
 import re
 import time
@@ -60,6 +62,20 @@ def _parse(out):
     return res
 
 
+@contextlib.contextmanager
+def target_lock(target):
+    """Two checks started at the same time share one CARGO_TARGET_DIR per crate; cargo serialises the build but
+    Kani's per-harness artifacts are not protected, so whole invocations are serialised per target directory."""
+    os.makedirs(BUILD, exist_ok=True)
+    f = open(os.path.join(BUILD, target + '.lock'), 'w')
+    try:
+        fcntl.flock(f, fcntl.LOCK_EX)
+        yield
+    finally:
+        fcntl.flock(f, fcntl.LOCK_UN)
+        f.close()
+
+
 def cargo_kani(crate_rel, filters, features, target, rep, timeout_each=600, jobs=None, extra=(), exact=False,
                unwind=None, pkg_args=()):
     crate = os.path.join(REPO, crate_rel)
@@ -77,7 +93,8 @@ def cargo_kani(crate_rel, filters, features, target, rep, timeout_each=600, jobs
         cmd += ['--default-unwind', str(unwind)]
     cmd += list(extra)
     rep.checker_cmds.append('(cd %s && RUSTFLAGS="--cfg %s" %s)' % (crate, GUARD, ' '.join(cmd)))
-    rc, out, err, secs, to = run(cmd, cwd=crate, env=env, timeout=timeout_each * max(1, len(filters)) + 1800)
+    with target_lock(target):
+        rc, out, err, secs, to = run(cmd, cwd=crate, env=env, timeout=timeout_each * max(1, len(filters)) + 1800)
     return rc, out + '\n' + err, secs, to
 
 
@@ -184,7 +201,8 @@ def playback(rep, ob, crate_rel, features, target, timeout=900, values_only=Fals
            '--concrete-playback=print', '--harness', h.name]
     if features is not None:
         cmd += ['--no-default-features', '--features', features]
-    rc, out, err, secs, to = run(cmd, cwd=crate, env=env, timeout=timeout)
+    with target_lock(target):
+        rc, out, err, secs, to = run(cmd, cwd=crate, env=env, timeout=timeout)
     m = re.search(r'Concrete playback unit test for `([^`]+)`:\s*```\s*\n(.*?)```', out, re.S)
     if not m:
         ob.detail += '\n[concrete playback produced no test (Kani gave no concrete values): %s]' % out[-400:]
@@ -211,7 +229,8 @@ def playback(rep, ob, crate_rel, features, target, timeout=900, values_only=Fals
     if features is not None:
         cmd2 += ['--no-default-features', '--features', features]
     cmd2 += ['--', tname]
-    rc2, out2, err2, secs2, to2 = run(cmd2, cwd=crate, env=env2, timeout=timeout)
+    with target_lock(target + '-playback'):
+        rc2, out2, err2, secs2, to2 = run(cmd2, cwd=crate, env=env2, timeout=timeout)
     txt = out2 + '\n' + err2
     mm = re.search(r'test result: (\w+)\. (\d+) passed; (\d+) failed', txt)
     if mm and int(mm.group(3)) >= 1:
